@@ -7,3 +7,4 @@ import OxyModel.Props.C03
 #print axioms C03.C03_5x_suffices_set
 #print axioms C03.C03_hypothesis_needed
 #print axioms C03.C03_subsecond_forgets
+#print axioms C03.C03_5x_needs_avg_le_period
